@@ -156,6 +156,56 @@ pub fn s3() -> Script {
     s
 }
 
+/// S3 continued: both leaders of term 2 replicate and commit a different proposal at index 5, each with a
+/// majority of its own configuration ({3,2} of {1,2,3}; {5,1,4} of {1,..,5}); then node 1, which holds node 5's
+/// version, is elected for term 3. Shows the consequences of the stale-configuration election for C01
+/// (different entries committed at one index), C05 (same index and term, different entry) and C03 (a leader
+/// without an entry that was committed before its election).
+pub fn s3_divergence() -> Script {
+    use raft::eraftpb::MessageType as T;
+    let mut s = s3();
+    let side_a = |k: &MsgKey| (k.f == 3 && k.t == 2) || (k.f == 2 && k.t == 3);
+    let side_b = |k: &MsgKey| [1u64, 4, 5].contains(&k.f) && [1u64, 4, 5].contains(&k.t);
+    // side A: node 3 appends its proposal right behind its no-op, so that both are acknowledged by node 2 and
+    // committed in one step, while node 3 still runs the configuration {1,2,3} it was elected with
+    s.act(Action::Propose { n: 3, id: 101, size: 16 });
+    s.sync_round(3);
+    s.drop_where(|k, _| !side_a(k) && !side_b(k));
+    s.deliver_where(|k, m| k.f == 3 && k.t == 2 && m.get_msg_type() == T::MsgAppend);
+    s.sync_round(2);
+    // the acknowledgement of the no-op alone is lost; a heartbeat round lets node 3 probe again with both entries
+    s.drop_where(|k, m| k.f == 2 && k.t == 3 && m.get_msg_type() == T::MsgAppendResponse);
+    s.act(Action::Tick { n: 3 });
+    s.sync_round(3);
+    s.drop_where(|k, _| !side_a(k) && !side_b(k));
+    s.deliver_where(|k, m| k.f == 3 && k.t == 2 && m.get_msg_type() == T::MsgHeartbeat);
+    s.sync_round(2);
+    s.deliver_where(|k, m| k.f == 2 && k.t == 3 && m.get_msg_type() == T::MsgHeartbeatResponse);
+    s.sync_round(3);
+    s.deliver_where(|k, m| k.f == 3 && k.t == 2 && m.get_msg_type() == T::MsgAppend);
+    s.sync_round(2);
+    s.drop_where(|k, m| k.f == 2 && k.t == 3 && m.get_msg_type() == T::MsgAppendResponse && m.index < 5);
+    s.deliver_where(|k, m| k.f == 2 && k.t == 3 && m.get_msg_type() == T::MsgAppendResponse);
+    s.sync_round(3);
+    // side B: node 5 commits its own proposal at index 5 with {5, 1, 4}
+    s.sync_round(5);
+    s.act(Action::Propose { n: 5, id: 102, size: 24 });
+    for _ in 0..6 {
+        s.drop_where(|k, _| !side_b(k));
+        s.settle(&[1, 4, 5]);
+    }
+    // node 1 (holding node 5's version of index 5) wins term 3 with {1, 4, 5}
+    s.act(Action::Campaign { n: 1 });
+    s.sync_round(1);
+    s.drop_where(|k, _| k.t == 2 || k.t == 3);
+    s.deliver_where(|k, m| k.f == 1 && m.get_msg_type() == T::MsgRequestVote);
+    s.sync_round(4);
+    s.sync_round(5);
+    s.deliver_where(|k, m| k.t == 1 && m.get_msg_type() == T::MsgRequestVoteResponse);
+    s.sync_round(1);
+    s
+}
+
 /// C07 race: a persistence notice for an in-flight Ready arrives after a new leader's append truncated the
 /// unstable log back to exactly the last index of that Ready (and carried a commit index covering it),
 /// and before the next Ready is taken. The entry at that index must not be handed out for apply: it is
